@@ -40,6 +40,15 @@ impl<K: AnimationKey, T: Component> AnimationSelector<K, T> {
     }
 }
 
+#[cfg(feature = "verif-hooks")]
+impl<K: AnimationKey, T: Component> AnimationSelector<K, T> {
+    /// Verification hook: the key whose timeline was most recently handed to the [Animator], i.e.
+    /// the last key change that has actually been acted on.
+    pub fn verif_acted_key(&self) -> Option<&K> {
+        self.previous_key.as_ref()
+    }
+}
+
 /// Builder for an [AnimationSelector].
 #[derive(Default)]
 pub struct AnimationSelectorBuilder<K: AnimationKey, T: Component> {
